@@ -92,6 +92,23 @@ func condDepth(c transaction.WitnessCondition) int {
 }
 
 func buildRule(t *tape) transaction.WitnessRule {
+	if t.hostile && t.n(3) == 0 {
+		// A spine one or two levels deeper than allowed (the encoders do not check the depth).
+		c := buildCondition(t, 1)
+		for i := 0; i < transaction.MaxConditionNesting+t.n(2); i++ {
+			switch t.n(3) {
+			case 0:
+				c = &transaction.ConditionNot{Condition: c}
+			case 1:
+				v := transaction.ConditionAnd{c}
+				c = &v
+			default:
+				v := transaction.ConditionOr{buildCondition(t, 1), c}
+				c = &v
+			}
+		}
+		return transaction.WitnessRule{Action: transaction.WitnessAction(t.n(2)), Condition: c}
+	}
 	return transaction.WitnessRule{
 		Action:    transaction.WitnessAction(t.n(2)),
 		Condition: buildCondition(t, transaction.MaxConditionNesting),
@@ -273,6 +290,19 @@ func buildBlock(t *tape, sr bool) *block.Block {
 		tx := buildTx(t, txOpts{scriptMax: 700, noReserved: true})
 		tx.Nonce = uint32(i)*7919 + tx.Nonce%7919 // distinct transactions
 		b.Transactions = append(b.Transactions, tx)
+	}
+	if t.chance(30) {
+		// many minimal transactions: the transaction count needs the 3-byte length form
+		m := 0xfc + t.n(4)
+		for i := 0; i < m; i++ {
+			var acc util.Uint160
+			acc[0] = byte(i)
+			b.Transactions = append(b.Transactions, &transaction.Transaction{
+				Nonce: uint32(100000 + i), Script: []byte{0x40},
+				Signers: []transaction.Signer{{Account: acc, Scopes: transaction.CalledByEntry}},
+				Scripts: []transaction.Witness{{}},
+			})
+		}
 	}
 	if t.bool() {
 		b.RebuildMerkleRoot()
